@@ -81,7 +81,7 @@ def _perturb(arr):
     return np.roll(a, 1, axis=-1) if a.ndim else a
 
 
-def pure_call(case, what, fn, arrays, kwargs=None, salt=0):
+def pure_call(case, what, fn, arrays, kwargs=None, salt=0, refill=False):
     """Call a function that is specified as PURE in its array arguments, inside a small history chosen from the case digest:
 
     * prime: the same array OBJECTS are first used for a call with other contents and then refilled in place
@@ -104,6 +104,21 @@ def pure_call(case, what, fn, arrays, kwargs=None, salt=0):
             b[...] = a
         args = bufs
     out = must(case, what, fn, *args, **kwargs)
+    if refill and isinstance(out, np.ndarray) and digest(case)[5 + salt] % 2 == 0:
+        # the caller refills the arrays it passed (next device, next acquisition) while it still holds the result: a result is a value,
+        # it must not follow the caller's buffers
+        from .core import Violation
+        snap = np.array(out, copy=True)
+        saved = [np.array(a, copy=True) for a in args]
+        for a in args:
+            if a.ndim and a.flags.writeable:
+                a[...] = _perturb(a)
+        same = np.array_equal(out, snap)
+        for a, b in zip(args, saved):
+            if a.ndim and a.flags.writeable:
+                a[...] = b
+        if not same:
+            raise Violation('%s: the returned array changed when the caller refilled the arrays it had passed (the result aliases an argument)' % what, case)
     if mode in (2, 3):
         try:
             fn(*[np.array(_perturb(a), copy=True) for a in args], **kwargs)
